@@ -304,7 +304,9 @@ def _worker(args):
         mod = importlib.import_module(f"checks.{check_id.lower()}")
         sub = next(s for s in mod.subchecks(tier) if s.name == sub_name)
         ctx = Ctx(check_id, sub_name, tier, seed, shard, nshards, known, deadline)
-        sub.fn(ctx, shard, nshards)
+        from .stackpad import padded  # noqa: PLC0415
+
+        padded(sub.fn, ctx, shard, nshards)
         res = ctx.result()
         res["wall_s"] = time.time() - t0
         return res
